@@ -487,6 +487,14 @@ def _reduction(opname, dtype=None, index=False):
         x = arrv(b["a"])
         sh = shape(x)
         rank = len(sh) if sh is not None else None
+        kd_ = kw.get("keepdims")
+        if kd_ is not None and kd_.has_const and kd_.const is True and sh is not None and b.get("axis") is not None and b["axis"].has_const and isinstance(b["axis"].const, int):
+            # keepdims=True: the plain reduction with the reduced axis re-inserted as a unit axis
+            inner_ = f(interp, name, args, {k: v for k, v in kw.items() if k != "keepdims"}, st, node)
+            if inner_.kind == "arr" and inner_.shape is not None:
+                axk_ = b["axis"].const % len(sh)
+                nsh_ = tuple(Dim(1) if i == axk_ else d for i, d in enumerate(sh))
+                return V("arr", T("reshape1", inner_.term, *shape_terms(nsh_)), shape=nsh_, orig=frozenset([FRESH]), labels=inner_.labels, loc=fresh_id(), extra=inner_.extra if isinstance(inner_.extra, str) else None)
         whr = kw.get("where")
         if whr is not None and whr.kind != "none" and not (whr.has_const and whr.const is True) and opname in ("amax", "amin", "sum", "any", "all", "prod"):
             # a masked reduction: the entries outside the mask are replaced by `initial` (max / min)
@@ -2094,6 +2102,25 @@ def np_einsum(interp, name, args, kw, st, node):
         return opaque()
     if any(len(set(s)) != len(s) for s in subs) or len(set(out)) != len(out) or any(len(s) > 2 for s in subs):
         return opaque()
+    # elementwise pattern over one index pair: 'i,ij,ij->j' = sum_i w_i A_ij B_ij  (vectors scale rows / columns)
+    mats = [s for s in subs if len(s) == 2]
+    if len(ops) >= 3 and mats and all(len(s) in (1, 2) for s in subs) and len(set("".join(subs))) == 2 and set(out) <= set(mats[0]) and len(set(out)) == len(out):
+        ij = mats[0]
+        cur = None
+        for v_, s_ in zip(ops, subs):
+            if len(s_) == 2:
+                m_ = v_ if s_ == ij else tr(v_)
+                cur = m_ if cur is None else had(cur, m_)
+        for v_, s_ in zip(ops, subs):
+            if len(s_) == 1:
+                dgv = fresh_arr(T("dg", v_.term), (shape(v_)[0], shape(v_)[0]), v_.labels)
+                cur = mm(dgv, cur) if s_ == ij[0] else mm(cur, dgv)
+        cur, ci = red(cur, ij, set(out))
+        if cur is not None:
+            if ci == out:
+                return cur
+            if len(ci) == 2 and ci[::-1] == out:
+                return tr(cur)
     # an index that occurs in one operand only and not in the output is summed inside that operand
     ops, subs = list(ops), list(subs)
     for k in range(len(ops)):
